@@ -81,6 +81,7 @@ def gen(draw):
         c["read_specs"] = []
     # PED lines and VCF columns in independent orders
     c["ped_order"] = list(draw(st.permutations(names[2:])))
+    c["ped_founders"] = draw(st.sampled_from([None, None, "first", "last"]))
     c["vcf_order"] = list(draw(st.permutations(names))) if draw(st.booleans()) else list(names)
     c["opts"] = {"tag": draw(st.sampled_from(["PS", "PS", "HP"])),
                  "recomb": draw(st.sampled_from(["default", "default", "high", "low", "genmap"])),
@@ -115,7 +116,7 @@ class PedigreePart:
         inputs = []
         if reads:
             inputs = [G.write_bam(case, reads, os.path.join(d, "reads.bam"))]
-        ped = G.write_ped([["father", "mother", ch] for ch in case.get("ped_order", children)], os.path.join(d, "fam.ped"))
+        ped = G.write_ped([["father", "mother", ch] for ch in case.get("ped_order", children)], os.path.join(d, "fam.ped"), founders=case.get("ped_founders"))
         o = case["opts"]
         kw = {}
         if o["recomb"] == "high":
